@@ -2,8 +2,10 @@ package ipnisync
 
 import (
 	"crypto/tls"
+	"errors"
 	"fmt"
 	"time"
+	"unicode/utf8"
 
 	"github.com/libp2p/go-libp2p/core/host"
 )
@@ -69,6 +71,9 @@ func WithHandlerPath(urlPath string) Option {
 // This is the topic on which advertisement are announced.
 func WithHeadTopic(topic string) Option {
 	return func(c *config) error {
+		if !utf8.ValidString(topic) {
+			return errors.New("topic is not valid UTF-8")
+		}
 		c.topic = topic
 		return nil
 	}
